@@ -83,6 +83,17 @@ CLAIMED.update({
    design="§7 C01", technique="contract-based deductive verification, zero-annotation safety sweep with a ledger of proved obligations (SMT)"),
 })
 
+CLAIMED.update({
+ "C05": dict(
+   text="Zero-annotation deductive frame sweep over every function that can run under Checker.Check (checkers, astwalk, lintutil, linter): one obligation per heap write "
+        "(store, map update, in-place append, copy, delete) and per call (the callee's frame must fit the caller's): the written location is either freshly allocated by the "
+        "function (astcopy results count as fresh) or part of the state owned by the checker - its scratch fields, the contents of its own maps and slices, the warning buffer of its "
+        "CheckerContext. Cursor mutators of astutil.Apply require a private (copied) root. TypeOf/SizeOf and the other contract functions are pure. About 2670 of 2990 obligations are "
+        "proved on the unchanged tree (ledger/C05.proved); an unproved obligation that is in neither ledger - i.e. a new write whose target is not provably owned or fresh - fails the check. "
+        "Writes inside dependencies (go/types laziness, astfmt, the rule engine) are assumed away.",
+   design="§7 C05", technique="contract-based deductive verification, zero-annotation frame sweep (assigns / ownership obligations; SMT)"),
+})
+
 NA_REASON_PENDING = "check not built yet in this round (planned, DESIGN §7); not claimed until its obligations discharge"
 NOT_APPLICABLE = {
  "C11": "no contract within reach can state equality of Go-regexp match behaviour between a pattern and the string printed from a third-party parse tree (DESIGN §8)",
